@@ -44,6 +44,8 @@ def run(cmd, input=None, timeout=20, env=None, cwd=None, stdout=subprocess.PIPE,
         stdin = subprocess.PIPE if input is not None else subprocess.DEVNULL
     p = subprocess.Popen(cmd, stdin=stdin, stdout=stdout, stderr=stderr,
                          env=env, cwd=cwd, start_new_session=True, preexec_fn=preexec)
+    if stdout == subprocess.PIPE and stderr == subprocess.PIPE:
+        return _communicate_capped(p, input, timeout)
     try:
         out, err = p.communicate(input, timeout=timeout)
         return Proc(p.returncode, out or b"", err or b"", False)
@@ -57,6 +59,96 @@ def run(cmd, input=None, timeout=20, env=None, cwd=None, stdout=subprocess.PIPE,
         except Exception:
             out, err = b"", b""
         return Proc(None, out or b"", err or b"", True)
+
+
+OUTPUT_CAP = 256 << 20
+
+
+def _communicate_capped(p, input, timeout):
+    """communicate() with a bound on what is kept: a child that prints without end (a compiler stuck in an expansion loop)
+    is killed and reported like a timeout instead of exhausting the memory of the checking process."""
+    import selectors
+    import time as _t
+    sel = selectors.DefaultSelector()
+    bufs = {p.stdout: [], p.stderr: []}
+    size = 0
+    for f in bufs:
+        os.set_blocking(f.fileno(), False)
+        sel.register(f, selectors.EVENT_READ)
+    inbuf = memoryview(input) if input else None
+    stdin_open = False
+    if p.stdin is not None:
+        if inbuf is None or not len(inbuf):
+            p.stdin.close()
+        else:
+            os.set_blocking(p.stdin.fileno(), False)
+            sel.register(p.stdin, selectors.EVENT_WRITE)
+            stdin_open = True
+    end = _t.monotonic() + timeout
+    killed = False
+    open_r = 2
+    while open_r or stdin_open:
+        left = end - _t.monotonic()
+        if left <= 0 or size > OUTPUT_CAP:
+            killed = True
+            break
+        for key, ev in sel.select(min(left, 1.0)):
+            f = key.fileobj
+            if f is p.stdin:
+                try:
+                    n = os.write(f.fileno(), inbuf[:65536])
+                    inbuf = inbuf[n:]
+                except BlockingIOError:
+                    n = 0
+                except OSError:
+                    inbuf = inbuf[:0]
+                if not len(inbuf):
+                    sel.unregister(f)
+                    stdin_open = False
+                    try:
+                        f.close()
+                    except OSError:
+                        pass
+                continue
+            try:
+                data = os.read(f.fileno(), 1 << 16)
+            except BlockingIOError:
+                continue
+            except OSError:
+                data = b""
+            if not data:
+                sel.unregister(f)
+                open_r -= 1
+            else:
+                bufs[f].append(data)
+                size += len(data)
+    if killed:
+        try:
+            os.killpg(p.pid, signal.SIGKILL)
+        except OSError:
+            pass
+    out, err = b"".join(bufs[p.stdout]), b"".join(bufs[p.stderr])
+    for f in (p.stdin, p.stdout, p.stderr):
+        try:
+            if f is not None:
+                f.close()
+        except OSError:
+            pass
+    try:
+        p.wait(timeout=10 if killed else max(1.0, end - _t.monotonic()))
+    except subprocess.TimeoutExpired:
+        killed = True
+        try:
+            os.killpg(p.pid, signal.SIGKILL)
+        except OSError:
+            pass
+        try:
+            p.wait(timeout=10)
+        except subprocess.TimeoutExpired:
+            pass
+    if killed:
+        return Proc(None, out[:1 << 20], err[:1 << 20], True)
+    return Proc(p.returncode, out, err, False)
 
 
 # --------------------------------------------------------------------------- results
@@ -344,8 +436,16 @@ def run_property(mod, tier, seed, only_source=None):
                 nwork = max(1, min(NWORK, src.examples[tier]))
             args = [(mod.__name__, src.name, tier, seed, i, nwork, ctx.tmp, ctx.builds, ctx.data, ctx.known)
                     for i in range(nwork)]
-            with mp.Pool(nwork) as pool:
-                packs = pool.map(_worker, args, chunksize=1)
+            # (an executor, not multiprocessing.Pool: when a worker is killed from outside - the kernel's OOM killer - Pool.map
+            # waits for ever, the executor raises)
+            from concurrent.futures import ProcessPoolExecutor
+            from concurrent.futures.process import BrokenProcessPool
+            try:
+                with ProcessPoolExecutor(nwork, mp_context=mp) as pool:
+                    packs = list(pool.map(_worker, args, chunksize=1))
+            except BrokenProcessPool:
+                print("MACHINERY-ERROR in %s: a worker process of source %s died without reporting (killed from outside?)" % (pid, src.name))
+                return 2
             ps = dict(evals=0, nontrivial=0)
             keys = set()
             for pk in packs:
